@@ -13,6 +13,10 @@ for sid in ids:
     extra = os.path.join(d, 'checks.txt')
     if os.path.exists(extra):
         checks += [c for c in open(extra).read().split() if c != prop]
+    metap0 = os.path.join(d, 'meta.json')
+    if os.path.exists(metap0) and json.load(open(metap0)).get('obsolete'):
+        print(sid, 'obsolete (not run)', flush=True)
+        continue
     p = subprocess.run([os.path.join(ROOT, 'tools', 'tryseed.py'), os.path.join(d, 'patch.diff')] + checks + ['--tier', tier], stdout=subprocess.PIPE, stderr=subprocess.STDOUT)
     out = p.stdout.decode('utf8', 'replace')
     res = {}
@@ -44,6 +48,9 @@ with open(os.path.join(ROOT, 'seeded', 'RESULTS-%s.md' % tier), 'w') as f:
     for sid in allids:
         try:
             meta = json.load(open(os.path.join(ROOT, 'seeded', sid, 'meta.json')))
+            if meta.get('obsolete'):
+                f.write('| %s | no longer a valid seeded change | | %s | |\n' % (sid, meta['obsolete'][:300]))
+                continue
             run = meta['runs'][tier]
         except Exception:
             f.write('| %s | not run yet | | | |\n' % sid)
